@@ -66,9 +66,20 @@ CHECKS = {
          "Every Send of every run is checked: destination address != sender address unless relay towards a peer-named target or user-supplied announce destination. Batches: seeded adversarial single-instance histories; a multi-node chaos pool (real instances under loss, duplication, corruption, partitions, crash/restart, stalls, clock skew); and EVERY history of 3 (quick) / 4 (thorough) operations over a 40-operation alphabet x 8 setups.",
          "crafted timers that name the destination themselves are treated as caller-supplied", "5/C19"),
 }
+# additions of round 12 (appended to the level text)
+EXTRA = {
+ "C01": " On the final states of every chaos-pool run (whatever the faults made of them): iter_membership_state fed to a fresh instance reproduces itself on third parties, feeding it again is a no-op, and pairs of restored instances exchanging full states agree on every third-party address.",
+ "C04": " Half of the configurations use small packets plus add_broadcast traffic, so that datagrams filled to exactly max_packet_size occur (counted).",
+ "C07": " One history in five uses a max_packet_size between the shortest and the longest header of the identity domain (sends that fail half-way with an encode error; the next datagram must still be well-formed).",
+ "C11": " As a monitor on every suspicion timeout of the shared batches: a timeout the instance scheduled itself is stale iff it was issued in an earlier epoch by the monitor's own ledger (not by comparing 8-bit tokens); warm-ups of 246-259 epochs through idle flaps or identity changes.",
+ "C17": " 16 classes, one of them change_identity with an equal identity value that differs in an attribute its equality does not cover.",
+ "C18": " Instances have refuted 0..3 suspicions (own incarnation 0..3) before the exchange.",
+ "C20": " The history batch reports datagram well-formedness and panics with the bundled codecs inside a running instance, incl. tight-header configurations where header encodes fail half-way.",
+}
 checks = []
 for pid in sorted(CHECKS):
     level, tech, text, note, ref = CHECKS[pid]
+    text = text + EXTRA.get(pid, "")
     checks.append({
         "property_id": pid,
         "quick_cmd": f"./check {pid} --tier quick",
